@@ -173,7 +173,7 @@ def contracts(T: Types, reg: Registry, ctx, pid="C01"):
         properties=[pid],
     )
 
-    # ---- registration: writes REGISTERED for fresh ids only
+    # ---- registration: writes REGISTERED for ids without a record only (no precondition on the ids: re-registration must not move a status)
     invs_t = SeqT(T.Invocation)
 
     def inv_id_at(c, k):
@@ -192,7 +192,9 @@ def contracts(T: Types, reg: Registry, ctx, pid="C01"):
         i = z3.Const(fresh_name("i"), ID.sort())
         rec, old = c.f("invocation_status_record"), c.old("invocation_status_record")
         n = z3.Length(c.arg("invocations"))
-        done = z3.ForAll([k], z3.Implies(z3.And(k >= 0, k < upto), z3.Select(rec, inv_id_at(c, k)) == rec_t.opt.some(record_term)))
+        # an id that already has a record keeps it (same as SQLite's ON CONFLICT DO NOTHING); a new id gets the REGISTERED record
+        done = z3.ForAll([k], z3.Implies(z3.And(k >= 0, k < upto), z3.Select(rec, inv_id_at(c, k)) == z3.If(
+            OREC.is_some(z3.Select(old, inv_id_at(c, k))), z3.Select(old, inv_id_at(c, k)), rec_t.opt.some(record_term))))
         kk = z3.Int(fresh_name("kk"))
         others = z3.ForAll([i], z3.Implies(z3.Not(z3.Exists([kk], z3.And(kk >= 0, kk < upto, inv_id_at(c, kk) == i))),
                                            z3.Select(rec, i) == z3.Select(old, i)))
@@ -201,7 +203,7 @@ def contracts(T: Types, reg: Registry, ctx, pid="C01"):
     register = Contract(
         key=f"{MO}:MemOrchestrator._register_new_invocations", shape="MemOrchestrator",
         params={"invocations": invs_t, "runner_id": OSTR}, result=T.Record,
-        requires=[("ids-fresh-and-distinct", fresh_ids), ("runner-id-none-or-nonempty", lambda c: runner_id_ok(c.arg("runner_id")))],
+        requires=[("runner-id-none-or-nonempty", lambda c: runner_id_ok(c.arg("runner_id")))],
         frame=["invocation_status_record", "status_index", "task_id_to_inv_id", "call_id_to_inv_id", "inv_id_to_call_id", "invocation_retries"],
         loops={0: LoopSpec(inv=[
             ("R", shape.R), ("O", shape.O),
